@@ -15,6 +15,9 @@
   Core Lean only.
 -/
 import SfModel.Handle
+
+deriving instance DecidableEq for Sf.Peak
+
 namespace Sf.Peak
 open Sf
 
